@@ -12,6 +12,7 @@ CONSTANTS
   MaxMarks = 1
   PropAllowed = TRUE
   SetAllAllowed = TRUE
+  LateEdges = FALSE
   RoundNodes <- RN_3_0
 INIT MCInit
 NEXT MCNext
